@@ -22,7 +22,7 @@ checks = {
    category="exploration", design_ref="DESIGN.md §3 C12",
    technique="exhaustive enumeration: full cross product of per-field boundary alphabets through the real protobuf codecs (round trip), and all short byte strings / wire-aware strings / every truncation and single-byte substitution of valid encodings through every decoder (totality)",
    text="Round trip compares every field (value bit-wise, time to the ns, data) of every point of the product alphabet and of nodes with 0..2 points and edge points through all encode/decode pairs. Totality feeds all byte strings up to length 2 (thorough 3), all strings up to length 4 (5) over the declared tags/wire types, and all truncations and single-byte substitutions of 8 valid encodings to 13 decoders under recover().",
-   note="internal/pb cannot be imported from outside the module, so reply messages (NodeRequest/NodesRequest) are assembled with protowire exactly as proto.Marshal lays them out; strings are valid UTF-8."),
+   note="internal/pb cannot be imported from outside the module, so reply messages (NodeRequest/NodesRequest) are assembled with protowire exactly as proto.Marshal lays them out; strings are valid UTF-8. Part successive-calls: results of two successive encodes / decodes must not share memory."),
  "C17": dict(
    category="exploration", design_ref="DESIGN.md §3 C17",
    technique="exhaustive enumeration of all 1-bit, 2-bit and <=16-bit burst error patterns at all positions (both bit orders) on real SerialEncode output, decided by the real SerialDecode; full product round trip over seq x subject x point lists",
@@ -37,7 +37,7 @@ checks = {
    category="exploration", design_ref="DESIGN.md §3 C18",
    technique="exhaustive enumeration of request PDUs (all 256 function codes x all data strings up to length 4/6 over a boundary byte alphabet; structured requests around every protocol limit) x 7 register maps through the real PDU.ProcessRequest on the real Regs, against a reference Modbus server written from the specification tables; write-then-read pairs",
    text="Every enumerated request is executed on a fresh real register file under recover() and a hang watchdog; the answer must be the byte-exact normal response of the reference server, or an exception of an applicable code, and registers must be as the reference says (unchanged after an exception to a read or single write).",
-   note="Requests with trailing bytes or an inconsistent byte-count field are only checked for safety. Go error accepted only for requests shorter than the fixed header."),
+   note="Requests with trailing bytes or an inconsistent byte-count field are only checked for safety. Go error accepted only for requests shorter than the fixed header. Part server-frames: what Server.Listen does per packet (transport Decode, unit check, ProcessRequest, Encode) for arbitrary TCP and RTU bytes."),
  "C19": dict(
    category="exploration", design_ref="DESIGN.md §3 C19",
    technique="exhaustive enumeration of client API calls (every count 1..2000 / 1..125 at an address alphabet, single writes + read back, 65 537 consecutive TCP transactions) on the real Client <-> real Server.Listen over in-memory RTU and TCP transports, against the reference register file; every single-byte substitution/truncation/transaction-id mutation of responses; all 2^32 values through the converters (thorough)",
@@ -47,12 +47,12 @@ checks = {
    category="model_checking", design_ref="DESIGN.md §3 C01",
    technique="stateless model checking of the real store: exhaustive DFS over choice sequences (point lists x all permutations x all batch compositions x one re-delivery) executed on a fresh real SQLite store over a deterministic in-process bus, reference model newest-timestamp-wins checked after every delivery",
    text="Every delivery schedule of every point list up to 3 (thorough 4) points over identities built around the shortcuts in the code (key \"\" vs \"0\", type+key concatenation collisions), for node points and edge points, is executed through the real NATS handlers; the read-back must hold exactly the newest delivered point per identity with all fields.",
-   note="Bus = in-process stand-in for nats.go (inline mode: one global FIFO, a schedule real NATS can produce). Alphabets, not all strings/floats. 16 single-threaded shard processes."),
+   note="Bus = in-process stand-in for nats.go (inline mode: one global FIFO, a schedule real NATS can produce). Alphabets, not all strings/floats. 16 single-threaded shard processes. Parts *-same-payload: points of one identity that differ only in their time."),
  "C03": dict(
    category="model_checking", design_ref="DESIGN.md §3 C03",
    technique="explicit-state search over write histories on the real store (state = store content + remaining depth, revisits pruned), with an independent Merkle recomputation, a cross-history differential (equal content => equal hashes) and storeMaint-changes-nothing evaluated in every state",
    text="From 4 seed states (empty, diamond, deleted mirror, detached populated subtree) all histories of 3/2 (thorough 4/3) operations over 44 operations (points new/newer/stale/duplicate, tombstone set/clear, edge points, on the 6 forward edges among root,A,B,C) are executed; after every operation every edge hash is recomputed from the replies by the harness's own CRC/XOR code.",
-   note="Cyclic edges excluded (C05). Hash definition taken from docs/ref/sync.md and the property text."),
+   note="Cyclic edges excluded (C05). Hash definition taken from docs/ref/sync.md and the property text. The operation alphabet includes equal-timestamp rewrites, older edge points and rewrites with a 300-byte text differing in the last byte."),
  "C05": dict(
    category="model_checking", design_ref="DESIGN.md §3 C05",
    technique="explicit-state search over graph states of the real store; in every state the complete menu of must-be-refused requests (self edge, root tombstone, missing node type, every cycle-closing edge through live or deleted edges, NaN at every batch position incl. NaN shadowed by a same-identity point, root tombstones of value 1, 3, 2, 0.5, -1, -2) is executed and followed by a full snapshot comparison and a spy on up.>; crashes/hangs are isolated by re-running the sequence 5x in separate processes",
@@ -62,17 +62,17 @@ checks = {
    category="model_checking", design_ref="DESIGN.md §3 C06",
    technique="exhaustive enumeration of graph configurations (every DAG shape over root+3 nodes with each edge absent/live/tombstoned; root+4 live-only in quick, full in thorough) on the real store; for every node and edge every kind of write is executed and the set of up.* subjects seen by a bus spy is compared with graph reachability computed by a reference model",
    text="Set equality between observed and expected rebroadcast subjects (missing ancestor = violation, non-ancestor = violation), payload identical to the request, for node points (live edges) and edge points (any edges), incl. up.root.* iff the instance root is reached.",
-   note="Shapes up to isomorphism (fixed topological order). Bus = in-process stand-in (inline)."),
+   note="Shapes up to isomorphism (fixed topological order). Bus = in-process stand-in (inline). Per shape also: batches with several samples of one identity, every edge flipped (live<->deleted) with node points again, flipped back with node points again."),
  "C09": dict(
    category="model_checking", design_ref="DESIGN.md §3 C09",
    technique="exhaustive cross product of HTTP methods x node routes x Authorization header kinds x bodies through the real api handler (ServeHTTP) with a bus spy and snapshot comparison; explicit-state search over user-placement histories on the real store for login/listing; real nats-server + real nats.go clients for the bus token",
    text="Every request with an invalid header must answer 401, cause zero bus messages and leave the store unchanged; every valid header must not answer 401. In every reachable placement state (move, mirror, delete, re-add, deleted groups; depth 5/6) a token is issued iff the user reaches the root through non-deleted edges, the issued token validates, wrong/empty credentials fail, and the node listing stays inside the subtrees of live placements. Bus: connects iff the token is exact.",
-   note="JWT variants (HS384/512, expired, missing claims) are crafted with the instance key read from the database file by the harness. /v1/auth excluded from the 401 oracle."),
+   note="JWT variants (HS384/512, expired, missing claims) are crafted with the instance key read from the database file by the harness. /v1/auth excluded from the 401 oracle. Header alphabet incl. every combination of {other key, tampered, expired} x iat/nbf {absent, past, future}; login with 15 near-miss credentials."),
  "C15": dict(
    category="model_checking", design_ref="DESIGN.md §3 C15",
    technique="exhaustive enumeration of (special point content x tree shape x position x import target x preserveIDs) through the real client.ExportNodes / ImportNodes on real stores (two instances for cross-instance import), differential oracle: imported subtree vs exported subtree under one id bijection",
    text="Every combination is built on a fresh store, exported to YAML and imported under the same parent, another parent and another instance, with and without id preservation; shape, node types, every point (type, normalised key, value bit-wise, text, tombstone), edge points, id replacement consistency incl. node-id references, the import marker on the top node only, and absence of deleted nodes are compared.",
-   note="Known findings (pinned YAML encoder): 13 exact strings and the class of floats printed as d e+-x. Quick: full content alphabet on one configuration + reduced alphabet on all configurations."),
+   note="Known findings (pinned YAML encoder): 13 exact strings and the class of floats printed as d e+-x. Quick: full content alphabet on one configuration + reduced alphabet on all configurations. 10 tree shapes incl. moved top node and moved child (oldest edge tombstoned)."),
  "C04": dict(
    category="fault_enumeration", design_ref="DESIGN.md §2.5, §3 C04",
    technique="exhaustive crash-point enumeration: the real writer process (real store on real SQLite files) is SIGKILLed by strace fault injection at EVERY state-changing system call on the store files (first-time initialisation, each write transaction, shutdown/checkpoint), then the real recovery path runs on the surviving files and is compared with the reference states of the acknowledged prefix",
@@ -82,7 +82,7 @@ checks = {
    category="model_checking", design_ref="DESIGN.md §3 C13",
    technique="stateless model checking of the real RuleClient.Run inside testing/synctest bubbles (virtual clock, quiescence by synctest.Wait): exhaustive enumeration of rule configurations x sequences of point batches / clock advances, every publication of the rule compared with a reference interpreter after each batch",
    text="Each of 72 single point conditions (all operators, value kinds and filter combinations), all ordered pairs over a reduced set, and 6 schedule windows (incl. midnight wrap) alone or combined with a number condition are run against all batch sequences of length 2 (thorough 3, plus two-point batches) / all operation sequences of length 4 (6) over clock advances and points. Condition active points, the rule active point, exactly one run of the right action list with the rule as origin, and the opposite list marked inactive are checked as multisets per batch.",
-   note="Narrow seam: no store; the rule receives up.<parent>.<node> messages as the store would rebroadcast them (C06). Raw-key filter semantics kept outside the alphabet. Compiled with go1.26.8 for testing/synctest."),
+   note="Narrow seam: no store; the rule receives up.<parent>.<node> messages as the store would rebroadcast them (C06). Raw-key filter semantics kept outside the alphabet. Compiled with go1.26.8 for testing/synctest. Further parts: every combination of stored active flags of rule and conditions (incl. the rule without conditions), misconfigured actions in front of the lists, two actions per list, condition value changed while the rule runs, schedule conditions with weekday sets and a second schedule condition."),
  "C07": dict(
    category="model_checking", design_ref="DESIGN.md §2.3, §3 C07",
    technique="stateless model checking with a controlled scheduler: real store + real client.NewManager + instrumented client in one testing/synctest bubble per execution; every bus delivery waits for a grant of the scheduler (default oldest first), the explorer enumerates all operation histories and, deviation-bounded, alternative delivery orders, early driver operations, the point at which Manager.Stop is issued (before every scheduler step) and which ready case the select statement of Manager.Run takes (client/manager.go rewritten by cmd/vselgen as a build overlay so that the explorer, not the Go runtime, picks among ready cases)",
@@ -92,7 +92,7 @@ checks = {
    category="model_checking", design_ref="DESIGN.md §3 C08",
    technique="same controlled-scheduler rig as C07: exhaustive enumeration of batch sequences (author x target x shape) with the Points/EdgePoints callbacks of the instrumented client as observation, plus a deviation-bounded exploration of delivery orders",
    text="All sequences of 2 (thorough 3) batches over 23 (4 authors x 4 targets, two-point batches, an edge-point batch); foreign changes in the subtree are told exactly once, in acceptance order, with identical points; own changes never; folding what was told (plus own writes) into the start configuration equals the store's node.",
-   note="Batches with empty origin aimed at a descendant are unclassified by the statement and unconstrained."),
+   note="Batches with empty origin aimed at a descendant are unclassified by the statement and unconstrained. Further parts: grand-child deleted / written / restored (depth 4), edge points on the child and grand-child edges, batches the store refuses (NaN) must not be told."),
  "C02": dict(
    category="model_checking", design_ref="DESIGN.md §2.3, §3 C02",
    technique="stateless model checking with the controlled scheduler over TWO buses: two real stores (downstream, upstream) linked by the real client.SyncClient in one testing/synctest bubble per execution; exhaustive enumeration of operation histories (writes, creations, deletions, undeletions on either side, outages, periods) and, deviation-bounded, delivery orders; differential oracle downstream subtree = upstream subtree plus newest-accepted-write reference",
@@ -102,7 +102,7 @@ checks = {
    category="model_checking", design_ref="DESIGN.md §2.3, §2.4, §3 C20",
    technique="stateless model checking with a preemption-bounded controlled scheduler on the real store: scheduling points are every bus delivery and, through an import-rewriting overlay of store/sqlite.go (database/sql -> gated wrapper, sync.Mutex -> gated channel mutex), every SQL operation and every writeLock.Lock; concurrent client threads (node writer, edge writer, reader, verify, maintenance, shutdown) are explored for all schedules with at most 2 (thorough 3) preemptions inside testing/synctest bubbles",
    text="For all triples of client threads and all schedules within the preemption bound: every request is answered (a schedule where nothing is enabled for 31 virtual seconds is a deadlock), a read issued after an acknowledgement sees the write, a reader's successive reads never go back, the final content is the newest acknowledged write per identity with consistent hashes and nothing for storeMaint to repair; with a concurrent Store.Stop at every point: Stop returns, the file reopens with the same root and all acknowledged writes.",
-   note="The data-race clause cannot be seen by a cooperative scheduler; it is covered by a separate free-running `go test -race` pass of the same thread bodies (sampling, reported in the evidence as such). Interleavings between two scheduling points are not enumerated."),
+   note="The data-race clause cannot be seen by a cooperative scheduler; it is covered by a separate free-running `go test -race` pass of the same thread bodies (sampling, reported in the evidence as such). Interleavings between two scheduling points are not enumerated. Further parts: threads X / Y (requests that must be refused; each must get the error text it gets when sent alone), a scheduling point where a reply leaves the store, Store.Stop at 4 positions around the start of Run, and the server-shutdown part (server.Server as cmd/siot assembles it, real nats.go, 24 scenarios in child processes, real time)."),
 }
 pending_reason = "check not built yet in this round (planned in DESIGN.md §3); not claimed until its harness exists"
 m = {
